@@ -2,6 +2,7 @@
 package main
 
 import (
+	"context"
 	"encoding/json"
 	"fmt"
 	"io"
@@ -9,8 +10,16 @@ import (
 	"sort"
 	"strings"
 	"sync"
+	"time"
 
 	"github.com/cespare/xxhash/v2"
+	"github.com/prometheus/prometheus/model/histogram"
+	"github.com/prometheus/prometheus/model/labels"
+	"github.com/prometheus/prometheus/promql"
+	"github.com/prometheus/prometheus/storage"
+	"github.com/prometheus/prometheus/tsdb/chunkenc"
+	"github.com/prometheus/prometheus/tsdb/chunks"
+	"github.com/prometheus/prometheus/util/annotations"
 
 	"github.com/thanos-io/thanos/pkg/querysharding"
 	"github.com/thanos-io/thanos/pkg/store/labelpb"
@@ -45,8 +54,215 @@ type input struct {
 	N      int64       `json:"n,omitempty"`
 	Labels [][2]string `json:"labels,omitempty"`
 	Expr   *node       `json:"expr,omitempty"`
+	Q      *qnode      `json:"q,omitempty"`
 	Series []seriesIn  `json:"series,omitempty"`
 	Note   string      `json:"note,omitempty"`
+}
+
+// qnode is a program of the mini-PromQL with a Coq semantics (Model.C44.qexpr).
+type qnode struct {
+	K        string     `json:"k"` // sel | agg | bin
+	On       bool       `json:"on,omitempty"`
+	L        *qnode     `json:"l,omitempty"`
+	R        *qnode     `json:"r,omitempty"`
+	Matchers []qmatcher `json:"matchers,omitempty"`
+	Op       string     `json:"op,omitempty"` // sum | count | min | max
+	Without  bool       `json:"without,omitempty"`
+	Labels   []string   `json:"labels,omitempty"`
+	E        *qnode     `json:"e,omitempty"`
+}
+
+type qmatcher struct {
+	Neq   bool   `json:"neq,omitempty"`
+	Name  string `json:"name"`
+	Value string `json:"value"`
+}
+
+func (q *qnode) promql() string {
+	if q.K == "sel" {
+		var ms []string
+		for _, m := range q.Matchers {
+			op := "="
+			if m.Neq {
+				op = "!="
+			}
+			ms = append(ms, fmt.Sprintf("%s%s%q", m.Name, op, m.Value))
+		}
+		return "{" + strings.Join(ms, ",") + "}"
+	}
+	if q.K == "bin" {
+		m := "ignoring"
+		if q.On {
+			m = "on"
+		}
+		return fmt.Sprintf("(%s) %s %s(%s) (%s)", q.L.promql(), q.Op, m, strings.Join(q.Labels, ","), q.R.promql())
+	}
+	kw := "by"
+	if q.Without {
+		kw = "without"
+	}
+	return fmt.Sprintf("%s %s (%s) (%s)", q.Op, kw, strings.Join(q.Labels, ","), q.E.promql())
+}
+
+func (q *qnode) coq() string {
+	if q.K == "sel" {
+		var ms []string
+		for _, m := range q.Matchers {
+			c := "MEq"
+			if m.Neq {
+				c = "MNeq"
+			}
+			ms = append(ms, common.App(c, common.Bytes(m.Name), common.Bytes(m.Value)))
+		}
+		return common.App("QSel", common.List(ms))
+	}
+	if q.K == "bin" {
+		op := map[string]string{"+": "BAdd", "-": "BSub", "*": "BMul"}[q.Op]
+		return common.App("QBin", op, common.Bool(q.On), strs(q.Labels), q.L.coq(), q.R.coq())
+	}
+	op := map[string]string{"sum": "ASum", "count": "ACount", "min": "AMin", "max": "AMax"}[q.Op]
+	return common.App("QAgg", op, common.Bool(q.Without), strs(q.Labels), q.E.coq())
+}
+
+// dropsName: some node of q removes __name__ from its output (without-aggregation, binary operation)
+func (q *qnode) dropsName() bool {
+	switch q.K {
+	case "sel":
+		return false
+	case "bin":
+		return true
+	}
+	return q.Without || q.E.dropsName()
+}
+
+// analyzer AST of a qnode (Model.C44.erase)
+func (q *qnode) erase() *node {
+	if q.K == "sel" {
+		return &node{K: "leaf", Text: q.promql()}
+	}
+	if q.K == "bin" {
+		m := "ignoring"
+		if q.On {
+			m = "on"
+		}
+		return &node{K: "bin", Op: q.Op, Match: m, Labels: q.Labels, L: q.L.erase(), R: q.R.erase()}
+	}
+	return &node{K: "agg", Op: q.Op, Without: q.Without, Labels: q.Labels, E: q.E.erase()}
+}
+
+// ---- an in-memory storage for the real PromQL engine ----
+
+type memSeries struct {
+	lset labels.Labels
+	val  float64
+}
+
+type memQueryable struct {
+	series []memSeries
+	keep   func(labels.Labels) bool // the store-side shard filter
+	ts     int64
+}
+
+func (q *memQueryable) Querier(_, _ int64) (storage.Querier, error) { return q, nil }
+func (q *memQueryable) LabelValues(context.Context, string, *storage.LabelHints, ...*labels.Matcher) ([]string, annotations.Annotations, error) {
+	return nil, nil, nil
+}
+func (q *memQueryable) LabelNames(context.Context, *storage.LabelHints, ...*labels.Matcher) ([]string, annotations.Annotations, error) {
+	return nil, nil, nil
+}
+func (q *memQueryable) Close() error { return nil }
+
+func (q *memQueryable) Select(_ context.Context, _ bool, _ *storage.SelectHints, ms ...*labels.Matcher) storage.SeriesSet {
+	var out []storage.Series
+	for _, s := range q.series {
+		ok := true
+		for _, m := range ms {
+			if !m.Matches(s.lset.Get(m.Name)) {
+				ok = false
+				break
+			}
+		}
+		if ok && (q.keep == nil || q.keep(s.lset)) {
+			out = append(out, storage.NewListSeries(s.lset, []chunks.Sample{fsample{t: q.ts, f: s.val}}))
+		}
+	}
+	sort.Slice(out, func(i, j int) bool { return labels.Compare(out[i].Labels(), out[j].Labels()) < 0 })
+	return &sliceSet{s: out, i: -1}
+}
+
+type fsample struct {
+	t int64
+	f float64
+}
+
+func (s fsample) T() int64                      { return s.t }
+func (s fsample) F() float64                    { return s.f }
+func (s fsample) H() *histogram.Histogram       { return nil }
+func (s fsample) FH() *histogram.FloatHistogram { return nil }
+func (s fsample) Type() chunkenc.ValueType      { return chunkenc.ValFloat }
+func (s fsample) Copy() chunks.Sample           { return s }
+
+type sliceSet struct {
+	s []storage.Series
+	i int
+}
+
+func (s *sliceSet) Next() bool                        { s.i++; return s.i < len(s.s) }
+func (s *sliceSet) At() storage.Series                { return s.s[s.i] }
+func (s *sliceSet) Err() error                        { return nil }
+func (s *sliceSet) Warnings() annotations.Annotations { return nil }
+
+var engine = promql.NewEngine(promql.EngineOpts{MaxSamples: 1000000, Timeout: 20 * time.Second, LookbackDelta: 5 * time.Minute})
+
+type obsSample struct {
+	Labels [][2]string `json:"labels"`
+	Value  int64       `json:"value"`
+}
+
+// errEngine marks an error returned by the engine while executing a valid query
+// (e.g. many-to-many matching): an observable, not a harness failure.
+type errEngine struct{ error }
+
+func evalEngine(q string, qb *memQueryable) ([]obsSample, error) {
+	qry, err := engine.NewInstantQuery(context.Background(), qb, nil, q, time.UnixMilli(qb.ts))
+	if err != nil {
+		return nil, err
+	}
+	defer qry.Close()
+	res := qry.Exec(context.Background())
+	if res.Err != nil {
+		return nil, errEngine{res.Err}
+	}
+	vec, err := res.Vector()
+	if err != nil {
+		return nil, err
+	}
+	var out []obsSample
+	for _, s := range vec {
+		if s.H != nil || s.F != float64(int64(s.F)) {
+			return nil, fmt.Errorf("non-integral result")
+		}
+		o := obsSample{Value: int64(s.F)}
+		s.Metric.Range(func(l labels.Label) { o.Labels = append(o.Labels, [2]string{l.Name, l.Value}) })
+		out = append(out, o)
+	}
+	sort.Slice(out, func(i, j int) bool { return fmt.Sprint(out[i].Labels) < fmt.Sprint(out[j].Labels) })
+	return out, nil
+}
+
+func coqResult(v []obsSample, failed bool) string {
+	if failed {
+		return common.None
+	}
+	return common.Some(coqVector(v))
+}
+
+func coqVector(v []obsSample) string {
+	var out []string
+	for _, s := range v {
+		out = append(out, common.Pair(coqLabels(s.Labels), common.Z(s.Value)))
+	}
+	return common.List(out)
 }
 
 type seriesIn struct {
@@ -238,8 +454,123 @@ func run(raw json.RawMessage) (common.Case, error) {
 		}
 		c.Nontrivial = a.IsShardable()
 		return c, nil
+	case "eval":
+		return runEval(in)
 	}
 	return c, fmt.Errorf("bad kind %q", in.Kind)
+}
+
+func runEval(in input) (common.Case, error) {
+	var c common.Case
+	q := in.Q.promql()
+	a, err := querysharding.NewQueryAnalyzer().Analyze(q)
+	if err != nil {
+		return c, fmt.Errorf("analyze %q: %w", q, err)
+	}
+	ls := append([]string(nil), a.ShardingLabels()...)
+	sort.Strings(ls)
+	if !a.IsShardable() || in.N < 1 {
+		e := in.Q.erase()
+		c.Coq = common.App("CAnalyze", e.coq(), common.Bool(a.IsShardable()), common.Bool(a.ShardBy()), strs(ls))
+		c.Obs = map[string]any{"query": q, "shardable": a.IsShardable()}
+		c.Class = "eval-not-shardable"
+		return c, nil
+	}
+	const ts = int64(1000000)
+	var all []memSeries
+	var dataCoq []string
+	seen := map[string]bool{}
+	for _, s := range in.Series {
+		sorted := append([][2]string(nil), s.Labels...)
+		sort.Slice(sorted, func(i, j int) bool { return sorted[i][0] < sorted[j][0] })
+		var kv []string
+		for _, l := range sorted {
+			if l[1] == "" {
+				return c, fmt.Errorf("empty label value")
+			}
+			kv = append(kv, l[0], l[1])
+		}
+		if seen[fmt.Sprint(kv)] {
+			continue
+		}
+		seen[fmt.Sprint(kv)] = true
+		all = append(all, memSeries{lset: labels.FromStrings(kv...), val: float64(s.Value)})
+		dataCoq = append(dataCoq, common.Pair(coqLabels(sorted), common.Z(s.Value)))
+	}
+	unsharded, err := evalEngine(q, &memQueryable{series: all, ts: ts})
+	unFailed := false
+	if _, ok := err.(errEngine); ok {
+		unFailed = true
+	} else if err != nil {
+		return c, fmt.Errorf("engine %q: %w", q, err)
+	}
+	var shards []any
+	var shardsCoq []string
+	var merged []obsSample
+	anyFailed := false
+	for i := int64(0); i < in.N; i++ {
+		info := &storepb.ShardInfo{TotalShards: in.N, ShardIndex: i, By: a.ShardBy(), Labels: a.ShardingLabels()}
+		keep := func(l labels.Labels) bool {
+			m := info.Matcher(&pool)
+			defer m.Close()
+			return m.MatchesLabels(l)
+		}
+		r, err := evalEngine(q, &memQueryable{series: all, ts: ts, keep: keep})
+		failed := false
+		if _, ok := err.(errEngine); ok {
+			failed, anyFailed = true, true
+		} else if err != nil {
+			return c, fmt.Errorf("engine shard %d %q: %w", i, q, err)
+		}
+		if failed {
+			shards = append(shards, "error")
+		} else {
+			shards = append(shards, r)
+		}
+		shardsCoq = append(shardsCoq, coqResult(r, failed))
+		merged = append(merged, r...)
+	}
+	sort.Slice(merged, func(i, j int) bool { return fmt.Sprint(merged[i].Labels) < fmt.Sprint(merged[j].Labels) })
+	// hash oracle for every series
+	set := map[string]bool{}
+	for _, l := range a.ShardingLabels() {
+		set[l] = true
+	}
+	sep := storepb.VerifC44Sep()[0]
+	var tbl []string
+	seenBuf := map[string]bool{}
+	for _, s := range all {
+		var buf []byte
+		s.lset.Range(func(l labels.Label) {
+			if set[l.Name] == a.ShardBy() {
+				buf = append(buf, l.Name...)
+				buf = append(buf, sep)
+				buf = append(buf, l.Value...)
+				buf = append(buf, sep)
+			}
+		})
+		if !seenBuf[string(buf)] {
+			seenBuf[string(buf)] = true
+			tbl = append(tbl, common.Pair(common.Bytes(string(buf)), common.N(xxhash.Sum64(buf))))
+		}
+	}
+	c.Coq = common.App("CEval", in.Q.coq(), common.List(dataCoq), common.N(uint64(in.N)), common.Bool(a.ShardBy()), strs(ls),
+		common.List(tbl), coqResult(unsharded, unFailed), common.List(shardsCoq))
+	c.Obs = map[string]any{"query": q, "by": a.ShardBy(), "labels": ls, "unsharded": unsharded, "unsharded_error": unFailed, "shards": shards}
+	c.Class = fmt.Sprintf("eval by=%v", a.ShardBy())
+	if unFailed {
+		c.Class += " engine-error"
+	}
+	c.Nontrivial = len(unsharded) > 0 && in.N > 1
+	if !unFailed && (anyFailed || fmt.Sprint(merged) != fmt.Sprint(unsharded)) {
+		c.GoPred = fmt.Sprintf("%q: merged shard results %v differ from the unsharded result %v", q, merged, unsharded)
+		c.Sig = "sharded-differs"
+		// known: a without() aggregation drops __name__, which the analyzer does not count among its labels
+		if in.Q.dropsName() && ((a.ShardBy() && set["__name__"]) || (!a.ShardBy() && !set["__name__"])) {
+			c.Sig = "without-aggregation-drops-metric-name"
+		}
+	}
+	return c, nil
 }
 
 // ---- generators ----
@@ -372,11 +703,68 @@ func genSeriesLabels(r *rand.Rand) [][2]string {
 	return ls
 }
 
+func genQ(r *rand.Rand, depth int) *qnode {
+	if depth <= 0 {
+		q := &qnode{K: "sel"}
+		switch r.Intn(3) {
+		case 0:
+			q.Matchers = []qmatcher{{Name: "job", Value: "j"}}
+		case 1:
+			q.Matchers = []qmatcher{{Name: "__name__", Value: common.Pick(r, "m1", "m2")}}
+		default:
+			q.Matchers = []qmatcher{{Name: "job", Value: "j"}, {Neq: r.Intn(2) == 0, Name: common.Pick(r, "a", "b", "pod"), Value: common.Pick(r, "x", "y")}}
+		}
+		return q
+	}
+	if r.Intn(4) == 0 {
+		b := &qnode{K: "bin", Op: common.Pick(r, "+", "-", "*"), On: r.Intn(2) == 0, L: genQ(r, depth-1), R: genQ(r, depth-1)}
+		for _, nm := range []string{"a", "b", "c", "pod", "__name__", "job"} {
+			p := 3
+			if b.On {
+				p = 2
+			}
+			if r.Intn(p) == 0 {
+				b.Labels = append(b.Labels, nm)
+			}
+		}
+		return b
+	}
+	q := &qnode{K: "agg", Op: common.Pick(r, "sum", "count", "min", "max"), Without: r.Intn(3) == 0, E: genQ(r, depth-1)}
+	names := []string{"a", "b", "c", "pod", "__name__", "job"}
+	for _, nm := range names {
+		p := 2
+		if q.Without {
+			p = 4
+		}
+		if r.Intn(p) == 0 || (!q.Without && nm == "a") {
+			q.Labels = append(q.Labels, nm)
+		}
+	}
+	return q
+}
+
+func genData(r *rand.Rand) []seriesIn {
+	n := 3 + r.Intn(10)
+	var out []seriesIn
+	for i := 0; i < n; i++ {
+		ls := [][2]string{{"__name__", common.Pick(r, "m1", "m2")}, {"job", "j"}}
+		for _, nm := range []string{"a", "b", "c", "pod"} {
+			if r.Intn(4) > 0 {
+				ls = append(ls, [2]string{nm, common.Pick(r, "x", "y", "z")})
+			}
+		}
+		out = append(out, seriesIn{Labels: ls, Value: common.Between(r, -5, 20)})
+	}
+	return out
+}
+
 func gen(r *rand.Rand, tier string, n int) []any {
 	var out []any
 	for i := 0; i < n; i++ {
 		switch k := r.Intn(10); {
 		case k < 3:
+			out = append(out, input{Kind: "eval", Q: genQ(r, 1+r.Intn(3)), N: common.Between(r, 2, 5), Series: genData(r)})
+		case k < 5:
 			in := input{Kind: "shard", By: r.Intn(2) == 0, Set: pickLabels(r), N: common.Between(r, 1, 5), Labels: genSeriesLabels(r)}
 			if r.Intn(5) == 0 {
 				in.Set = append(in.Set, "__name__")
